@@ -125,7 +125,10 @@ func TestC12(t *testing.T) {
 		}
 		parkedProbe(t, r, reps+p)
 	}
-	r.Require("reads_validated", "reads_after_close", "polls_completed", "lookups_during_reads", "expiry_sweeps", "parked_probes_completed", "reader_serial_transitions", "read_after_poll_checks", "handles_obtained_during_poll")
+	if r.Only < 0 {
+		racingLookups(t, r)
+	}
+	r.Require("handles_from_racing_lookups", "reads_validated", "reads_after_close", "polls_completed", "lookups_during_reads", "expiry_sweeps", "parked_probes_completed", "reader_serial_transitions", "read_after_poll_checks", "handles_obtained_during_poll")
 	r.Rule("stress repetitions: 16 reader goroutines over handles of 3 declared + up to 4 looked-up secrets, concurrent with a background poller on a fast ticker, explicit Refresh callers, a service that keeps installing new values, lookups of fresh names, expiry sweeps driven by an injected clock, then Close with readers continuing; every read validated. Parked-request probes: while a poll/lookup/initial request is parked in the service, every handle is called 100 times. Distinct = (reader serial transition kind x concurrent event) and probe kinds")
 }
 
@@ -557,4 +560,56 @@ func parkedProbe(t *testing.T, r *evid.Run, idx int) {
 			}
 		}()
 	}
+}
+
+// racingLookups: several goroutines look up the same not-yet-known name at once; then the service moves on
+// and a poll completes. Every handle given out, and Secret(name), must return the poll's value or a newer one.
+func racingLookups(t *testing.T, r *evid.Run) {
+	w := &world{svc: fakesvc.New(), rng: rand.New(rand.NewPCG(77, 5)), ver: map[string]uint32{}, served: map[string]map[uint64]string{}}
+	w.bump("decl")
+	st, err := setec.NewStore(context.Background(), setec.StoreConfig{Client: w.svc, Secrets: []string{"decl"}, AllowLookup: true, PollInterval: -1, Logf: func(string, ...any) {}})
+	if err != nil {
+		t.Fatal(err)
+	}
+	defer st.Close()
+	for i, n := 0, r.N(400, 4000); i < n; i++ {
+		r.Eval(1)
+		name := fmt.Sprintf("fresh/%d", i)
+		w.bump(name)
+		const G = 8
+		hs := make([]setec.Secret, G)
+		var wg sync.WaitGroup
+		var gate atomic.Bool
+		for g := 0; g < G; g++ {
+			wg.Add(1)
+			go func(g int) {
+				defer wg.Done()
+				for !gate.Load() {
+				}
+				hs[g], _ = st.LookupSecret(context.Background(), name)
+			}(g)
+		}
+		gate.Store(true)
+		wg.Wait()
+		want := w.bump(name)
+		if err := st.Refresh(context.Background()); err != nil {
+			t.Fatal(err)
+		}
+		for g, h := range append(hs, st.Secret(name)) {
+			if h == nil {
+				continue
+			}
+			r.Count("handles_from_racing_lookups", 1)
+			nm, serial, ok := parse(h.Get())
+			if !ok || nm != name {
+				r.Violation("torn-value", -1, fmt.Sprintf("racing lookups of %q: handle %d returned an invalid value", name, g), nil)
+				return
+			}
+			if serial < want {
+				r.Violation("stale-after-completed-poll", -1, fmt.Sprintf("racing lookups of %q: a poll that installed serial %d has completed, yet handle %d returns serial %d", name, want, g, serial), nil)
+				return
+			}
+		}
+	}
+	r.Distinct("racing lookups then poll")
 }
